@@ -175,7 +175,7 @@ func TestVerifC01(t *testing.T) {
 	r := h.Start("C01")
 	defer r.Finish(func(s string) { t.Error(s) })
 	env := genEnv()
-	r.Set("rule", "choice vectors of the traceback-printer model: (a) all vectors with <= bound deviations from the plainest dump over format, goroutine count, id, every state string of the installed runtimes, tails, minutes, lock, stack shapes (1..150 frames, both elision markers, unavailable), creator forms, 40 symbol shapes, 14 file shapes, all argument trees <=4 nodes/depth<=3 + specials, leaf value rotations, surrounding text; (b) full product of the format dimensions x 3 contents; (c) full symbol x file product at stack and creator position. non-trivial = at least one deviation from the default dump; distinct = choice vector")
+	r.Set("rule", "choice vectors of the traceback-printer model: (a) all vectors with <= bound deviations from the plainest dump over format, goroutine count, id, every state string of the installed runtimes, tails, minutes, lock, stack shapes (1..150 frames, both elision markers, unavailable), creator forms, 40 symbol shapes, 14 file shapes, all argument trees <=4 nodes/depth<=3 + specials, leaf value rotations, surrounding text; (b) full product of the format dimensions x 3 contents; (c) full symbol x file product at stack and creator position; (d) a function line / argument list / file line of 16383..200000 bytes in the second of three goroutines, LF and CRLF. non-trivial = at least one deviation from the default dump; distinct = choice vector")
 	r.Set("assumptions", []string{"the printer model (verifx/gen/dump.go) is faithful to runtime/traceback.go of the installed toolchains (state strings are read from their sources at check time)", "ground truth comparison covers ID, First, State, Sleep, Locked, per frame Func.{Complete,ImportPath,Name}, RemoteSrcPath, Line, SrcName, argument trees incl. IsPtr as a function of the value, creator, Stack.Elided"})
 	r.Set("states_in_alphabet", len(env.States))
 	bound := r.Pick(2, 3)
@@ -260,6 +260,49 @@ func TestVerifC01(t *testing.T) {
 		if r.Shard == 0 {
 			r.Add("explored_vectors_part_c", nc)
 		}
+	}
+	// (d) very long lines inside a dump (instantiated generic names, many arguments,
+	// deep paths): the second of three goroutines carries a function line / an argument
+	// list / a file line of L bytes for L around the reader's buffer size and its
+	// multiples; CRLF and LF
+	nd := 0
+	for _, L := range []int{16383, 16384, 16385, 32768, 65535, 65536, 65537, 70000, 200000} {
+		for where := 0; where < 3; where++ {
+			for _, crlf := range []bool{false, true} {
+				nd++
+				key := fmt.Sprintf("d:L=%d where=%d crlf=%v", L, where, crlf)
+				if !r.MineIdx(nd) {
+					continue
+				}
+				d := gen.GenDump(fixedChooser{"goroutines": 2, "g0.creator": 2, "g2.minutes": 2}, env)
+				d.F.CRLF = crlf
+				if len(d.Gs) != 3 || len(d.Gs[1].Calls) == 0 {
+					r.Note("part (d): the generator's default goroutine has no frame; part skipped")
+					continue
+				}
+				c := &d.Gs[1].Calls[0]
+				switch where {
+				case 0:
+					c.Pkg, c.Name = "main", "Map[go.shape."+strings.Repeat("x", L)+"]"
+				case 1:
+					c.Args = gen.Args{}
+					for len(c.Args.String()) < L {
+						c.Args.Vals = append(c.Args.Vals, gen.Arg{Val: uint64(0xc000000000 + len(c.Args.Vals))})
+					}
+				case 2:
+					c.File = "/home/user/" + strings.Repeat("d/", L/2) + "f.go"
+				}
+				v := r.Check(func() *h.Viol { return checkDumpParse(d, "panic: x\n\n", "exit status 2\n", key) })
+				out := "ok"
+				if v != nil {
+					out = v.Fingerprint
+				}
+				r.Record(key, true, out)
+			}
+		}
+	}
+	if r.Shard == 0 {
+		r.Add("long_line_dumps_part_d", nd)
 	}
 }
 
